@@ -119,7 +119,7 @@ def rand_checksum_entries(r):
     """list of (algorithm lower-case, hex lower-case) with distinct algorithms"""
     n = 1 + r.below(3)
     algs = []
-    pool = ["sha1", "sha256", "md5", "sha512", "b", "a1", "x-y", "é", "a:b"]
+    pool = ["sha1", "sha256", "md5", "sha512", "b", "a1", "x-y", "é", "a:b", "a:b c", "x:y&z", "s:h+1", " md5", "sha", "sha2", "sha2-256"]
     for _ in range(n):
         a = r.pick(pool)
         if a not in algs:
